@@ -2,7 +2,8 @@
 Semantics of the Rust constructs added by the phase-5b translation (`Generated/Translated5b.lean`, written by
 `tools/rs2lean5b.py`): saturating addition and the bit operators on SIGNED integers (two's complement), as used
 by the `f64` key image of `scalar_convert_to_comparable`
-(`let s = n.to_bits() as i64; let v = s ^ (((s >> 63) as u64) >> 1) as i64;`).
+(`let s = n.to_bits() as i64; let v = s ^ (((s >> 63) as u64) >> 1) as i64;`), and collecting one of the crate's
+iterator structs into a `Vec` (`contains_jsonb`).
 HAND-WRITTEN and TRUSTED, like the earlier preludes it extends; the translator only maps syntax to these names.
 `>>` on a signed type is already `Rs.shr` of RustPrelude.lean (arithmetic shift = floor division), `as` between
 integer types is `Rs.cast` (two's complement wrap).
@@ -25,5 +26,23 @@ def bitandS (t : IntTy) (a b : Int) : Int := wrap t ((bitsOf t a &&& bitsOf t b 
 def bitorS (t : IntTy) (a b : Int) : Int := wrap t ((bitsOf t a ||| bitsOf t b : Nat) : Int)
 /-- `a ^ b` on a signed type -/
 def bitxorS (t : IntTy) (a b : Int) : Int := wrap t ((bitsOf t a ^^^ bitsOf t b : Nat) : Int)
+
+/-- `<iterator struct>.collect::<Vec<_>>()`, also under `.filter(|p| c)` / `.map(|p| x)` with pure closures (the
+translator applies those to the collected list: `List.filter` / `List.map`): `next` is called until it answers
+`None`.  As for `Rs.forIter` nothing bounds the number of calls syntactically: the function's explicit `fuel`
+does, and exhausting it ends the function with `Res.fuel`. -/
+def collectIter {ρ ι α : Type} (fuel : Nat) (next : ι → Res (Option α × ι)) (it : ι) : Ctl ρ (List α) :=
+  match fuel with
+  | 0 => .ret .fuel
+  | n + 1 =>
+    match next it with
+    | .ok (none, _) => .val []
+    | .ok (some x, it') =>
+      (match collectIter n next it' with
+       | .val rest => .val (x :: rest)
+       | .ret r => .ret r)
+    | .err e => .ret (.err e)
+    | .panic p => .ret (.panic p)
+    | .fuel => .ret .fuel
 
 end Jsonb.Rs
